@@ -217,7 +217,9 @@ func (nb *nativeBuilder) replay(pkg, replayPath string, asan ...bool) (nativeRes
 			if m := regexp.MustCompile(`observes=(\d+)`).FindStringSubmatch(line); m != nil {
 				nr.ObsCount, _ = strconv.Atoi(m[1])
 			}
-		case strings.HasPrefix(line, "panic:") || strings.HasPrefix(line, "fatal error:") || strings.Contains(line, "SIGSEGV") || strings.Contains(line, "ERROR: AddressSanitizer"):
+		case strings.HasPrefix(line, "panic:") || strings.HasPrefix(line, "fatal error:") || strings.Contains(line, "SIGSEGV") || strings.Contains(line, "ERROR: AddressSanitizer") ||
+			strings.Contains(line, "SIGABRT") || strings.Contains(line, "double free") || strings.Contains(line, "free(): invalid") || strings.Contains(line, "malloc(): ") || strings.Contains(line, "corrupted "):
+			// the C allocator's own consistency checks abort the process (glibc) on a double or invalid free
 			if nr.Panic == "" {
 				nr.Panic = line
 			}
@@ -499,6 +501,12 @@ func runCheck(args []string) int {
 					break
 				}
 				confirmed := labelMatches(nr.Violations, v.Label) || (v.Label == "uncaught-panic" && nr.Panic != "") || (strings.HasPrefix(v.Label, "engine:") && (nr.Panic != "" || len(nr.Violations) > 0))
+				if !confirmed && strings.HasPrefix(v.Label, "engine:memory-safety") && !h.NativeASan {
+					// a C memory error need not crash an ordinary build: ask AddressSanitizer
+					if nr2, err2 := nb.replay(h.Pkg, rp, true); err2 == nil && nr2.Panic != "" {
+						nr, confirmed = nr2, true
+					}
+				}
 				if confirmed {
 					confirmedAny = true
 					violations++
